@@ -114,6 +114,12 @@ pub fn parse_resp_frame(data: &[u8]) -> Result<Option<(RespFrame, usize)>> {
 /// without a limit a few kilobytes of `*1\r\n` overflow the stack of the command thread.
 pub const MAX_NESTING: usize = 128;
 
+/// No container is pre-sized beyond this many elements, whatever length it declares and however many bytes are
+/// buffered: the bytes buffered bound the elements that can follow only very loosely (an element slot is 32 bytes,
+/// a map pair 64), the sizing is repeated at every nesting level and at every retry of an incomplete frame, so
+/// `len.min(data.len())` alone still reserved thousands of times what had been received
+const MAX_RESERVE: usize = 1024;
+
 /// Internal frame parser; `depth` is the number of containers around this frame
 fn parse_frame(data: &[u8], depth: usize) -> Result<Option<(RespFrame, usize)>> {
     if depth > MAX_NESTING {
@@ -230,7 +236,7 @@ fn parse_array(data: &[u8], depth: usize) -> Result<Option<(RespFrame, usize)>> 
     
     let len = len as usize;
     // Never reserve by a declared length that has not been received yet
-    let mut elements = Vec::with_capacity(len.min(data.len()));
+    let mut elements = Vec::with_capacity(len.min(data.len()).min(MAX_RESERVE));
     let mut total_consumed = header_consumed;
     
     for _ in 0..len {
@@ -296,7 +302,7 @@ fn parse_map(data: &[u8], depth: usize) -> Result<Option<(RespFrame, usize)>> {
         .map_err(|_| FerrousError::Protocol("Invalid map length".into()))?;
     
     // Never reserve by a declared length that has not been received yet
-    let mut pairs = Vec::with_capacity(len.min(data.len()));
+    let mut pairs = Vec::with_capacity(len.min(data.len()).min(MAX_RESERVE));
     let mut total_consumed = header_consumed;
     
     for _ in 0..len {
@@ -337,7 +343,7 @@ fn parse_set(data: &[u8], depth: usize) -> Result<Option<(RespFrame, usize)>> {
         .map_err(|_| FerrousError::Protocol("Invalid set length".into()))?;
     
     // Never reserve by a declared length that has not been received yet
-    let mut elements = Vec::with_capacity(len.min(data.len()));
+    let mut elements = Vec::with_capacity(len.min(data.len()).min(MAX_RESERVE));
     let mut total_consumed = header_consumed;
     
     for _ in 0..len {
